@@ -21,6 +21,15 @@ Streams
            time (distinct ids), make requests of theirs raise inside the surviving helper (first / only
            stateful request: _test_raise_error(ValueError), or the wrapper's `raises` fault), drop them and
            go on.
+           "The helper raises": the class of the exception is part of the fault (raises: Exception subclasses,
+           reported back by Listener.listen and re-raised by design; raises_fatal: SystemExit with every kind
+           of argument, KeyboardInterrupt, GeneratorExit, asyncio.CancelledError, a BaseException subclass of
+           our own, BaseException: the helper must die and the query may only fail with InternalError).  One
+           case per fatal class in every run.  The same faults through the public API (`mods` cases): a project
+           with sourceless modules (load_unsafe_extensions=True), one of which calls sys.exit() / raises a
+           non-Exception / os._exit()s / SIGKILLs itself / closes fd 0 or 1 / writes half a reply and exits /
+           raises an ordinary Exception while the helper imports it; complete/infer/goto/get_signatures/help
+           on it, 1..3 consecutive times, queries on a harmless sourceless module before and after.
   churn    many Scripts created and dropped on one helper: helper-side live states subset of live Scripts.
 """
 import gc
@@ -52,7 +61,12 @@ MANIFEST = dict(
          '(states_owned_or_queued), hence after one further served request nothing is left of a dropped Script '
          'whatever the outcomes of its requests were (discarded_states_released, over the position of '
          '`self._used = True` relative to run() read from the source); kernel-checked counter-witnesses for the '
-         'mark moved behind run() (leaked state, stale state reused after id() reuse). Tie: translator (except clauses, _kill, '
+         'mark moved behind run() (leaked state, stale state reused after id() reuse); "the helper raises" is '
+         'modelled over the except clause of Listener.listen read from the source (listenFault): the clause catches '
+         'no class that is not an Exception (listen_catches_only_exceptions), hence a SystemExit / KeyboardInterrupt / '
+         'GeneratorExit / CancelledError / own BaseException raised while a request is served ends in InternalError, a '
+         'crashed and reaped helper (helper_raise_fatal_contained_partial); kernel-checked counter-witness for '
+         '`except (Exception, SystemExit)` (SystemExit re-raised in the user\'s process). Tie: translator (except clauses, _kill, '
          '__del__ guard and body, _used writes, run() flush loop, replacement test, close-loop shape) + trace '
          'correspondence (incl. open pipe count and helper-side inference states per helper after every '
          'operation) through a fault-injecting stand-in for the environment executable and '
@@ -71,6 +85,96 @@ WRAPPER = os.path.join(common.VERIF, 'harness', 'helper_wrapper', 'python')
 SCRATCH = '/tmp/scratch-c14c12'
 DEATHS = ('before_send', 'after_send', 'trunc', 'raises_fatal')
 PHASES = DEATHS + ('raises',)
+# "the helper raises": the class of the exception is part of the fault.  What decides whether the helper
+# lives is CPython's class hierarchy, not jedi: Exception subclasses are reported back by Listener.listen
+# (phase `raises`), every other BaseException leaves the request loop and ends the process (`raises_fatal`).
+EXC_SOFT = ('RuntimeError', 'ValueError', 'KeyError', 'OSError', 'ZeroDivisionError', 'MemoryError',
+            'NotImplementedError', 'UnicodeError', 'EOFError', 'BrokenPipeError', 'Exception')
+EXC_FATAL = (('KeyboardInterrupt', None), ('SystemExit', 3), ('SystemExit', None), ('SystemExit', 0),
+             ('SystemExit', 'quit'), ('GeneratorExit', None), ('CancelledError', None), ('VerifFatal', None),
+             ('BaseException', None))
+
+
+# ---- "the helper raises / dies" through the public API: a project (load_unsafe_extensions=True) with sourceless
+# modules; jedi imports such modules only inside the helper.  `bad` does something while it is imported.
+MOD_FINE = "def fine_function(a, b):\n    return a\nfine_value = 3\nclass FineClass:\n    fine_attr = 1\n"
+MOD_HEAD = ("import os, sys\nanswer = 42\ndef f(a):\n    return a\n"
+            "_F = getattr(sys, '_verif_fault', None) or (lambda *a, **k: None)\n")
+# action -> (phase the wrapper vocabulary has for it, class raised, module-level code)
+MOD_ACTIONS = {
+    'sys.exit(3)': ('raises_fatal', 'SystemExit', "_F('raises_fatal', exc='SystemExit')\nsys.exit(3)\n"),
+    'sys.exit()': ('raises_fatal', 'SystemExit', "_F('raises_fatal', exc='SystemExit')\nsys.exit()\n"),
+    'sys.exit(str)': ('raises_fatal', 'SystemExit',
+                      "_F('raises_fatal', exc='SystemExit')\nsys.exit('usage: bad [options]')\n"),
+    'raise SystemExit subclass': ('raises_fatal', 'SystemExit',
+                                  "class Quit(SystemExit):\n    pass\n_F('raises_fatal', exc='SystemExit')\nraise Quit(2)\n"),
+    'raise KeyboardInterrupt': ('raises_fatal', 'KeyboardInterrupt',
+                                "_F('raises_fatal', exc='KeyboardInterrupt')\nraise KeyboardInterrupt\n"),
+    'raise GeneratorExit': ('raises_fatal', 'GeneratorExit',
+                            "_F('raises_fatal', exc='GeneratorExit')\nraise GeneratorExit\n"),
+    'raise asyncio.CancelledError': ('raises_fatal', 'CancelledError',
+                                     "import asyncio\n_F('raises_fatal', exc='CancelledError')\n"
+                                     "raise asyncio.CancelledError()\n"),
+    'raise own BaseException': ('raises_fatal', 'VerifFatal',
+                                "class Stop(BaseException):\n    pass\n_F('raises_fatal', exc='VerifFatal')\n"
+                                "raise Stop('stop')\n"),
+    'os._exit(7)': ('after_send', None, "_F('after_send')\nos._exit(7)\n"),
+    'SIGKILL itself': ('after_send', None, "_F('after_send')\nos.kill(os.getpid(), 9)\n"),
+    'close fd 1': ('after_send', None, "_F('after_send')\nos.close(1)\n"),
+    'partial reply, exit': ('trunc', None, "_F('trunc', prefix='800495')\nos.write(1, bytes.fromhex('800495'))\n"
+                                            "os._exit(0)\n"),
+    'close fd 0': ('before_send', None, "_F('before_send', dk=1)\nos.close(0)\n"),
+    # Exceptions: access.load_module catches them inside the helper (a warning, no module): no fault at all
+    'raise ImportError': (None, 'ImportError', "raise ImportError('no such thing')\n"),
+    'raise RuntimeError': (None, 'RuntimeError', "raise RuntimeError('boom')\n"),
+    'raise ZeroDivisionError': (None, 'ZeroDivisionError', "1 / 0\n"),
+    'benign': (None, None, ""),
+}
+MQ_FINE = [('complete', 'import fine\nfine.fine_'), ('infer', 'import fine\nfine.fine_function'),
+           ('goto', 'import fine\nfine.FineClass'), ('complete', 'from fine import fi'),
+           ('get_signatures', 'import fine\nfine.fine_function('), ('complete', 'import fine\nfine.FineClass.fine_a')]
+MQ_BAD = [('complete', 'import bad\nbad.ans'), ('infer', 'import bad\nbad'), ('goto', 'from bad import answer\nanswer'),
+          ('complete', 'from bad import an'), ('get_signatures', 'import bad\nbad.f('), ('help', 'import bad\nbad.f'),
+          ('complete', 'import fine, bad\nfine.fine_')]
+
+
+def make_project(tag, mods):
+    """a directory with one sourceless (.pyc only) module per entry of `mods`"""
+    import py_compile
+    import shutil
+    pdir = os.path.join(SCRATCH, 'proj-' + tag)
+    shutil.rmtree(pdir, ignore_errors=True)
+    os.makedirs(pdir)
+    for name, src in mods.items():
+        srcfile = os.path.join(pdir, name + '_src.py')
+        with open(srcfile, 'w') as f:
+            f.write(src)
+        py_compile.compile(srcfile, cfile=os.path.join(pdir, name + '.pyc'), doraise=True)
+        os.remove(srcfile)
+    return pdir
+
+
+def is_exception_subclass(name):
+    """CPython fact, independent of jedi: is the class called `name` a subclass of Exception"""
+    import asyncio
+    import builtins
+    cls = {'CancelledError': asyncio.CancelledError, 'VerifFatal': BaseException}.get(name) \
+        or getattr(builtins, name, None)
+    if cls is None:
+        return None
+    return issubclass(cls, Exception)
+
+
+def with_exc(rng, plan):
+    """adds the exception class to a raises / raises_fatal plan"""
+    if plan['phase'] == 'raises':
+        plan['exc'] = rng.choice(EXC_SOFT)
+    elif plan['phase'] == 'raises_fatal':
+        name, arg = rng.choice(EXC_FATAL)
+        plan['exc'] = name
+        if name == 'SystemExit' and arg is not None:
+            plan['arg'] = arg
+    return plan
 
 SCEN = [
     ('complete', 'import math\nmath.sq'),
@@ -350,7 +454,7 @@ def requests_read(events, pid):
     evs = [e for e in events if e.get('pid') == pid]
     return sum(1 for e in evs if e.get('ev') == 'req') + \
         sum(1 for e in evs if e.get('ev') == 'fault' and not e.get('by')
-            and e['phase'] in ('after_send', 'raises', 'raises_fatal'))
+            and (e['phase'] in ('after_send', 'raises', 'raises_fatal') or (e.get('nat') and e['phase'] == 'trunc')))
 
 
 def harness_kill(rec):
@@ -452,6 +556,10 @@ def do_step(env, slots, st, timeout=HANG_AFTER):
         if do == 'drop':
             slots.pop(st['slot'], None)
             return {'ok': True, 'answer': None}
+        if do == 'mq':
+            # a fresh Script on the project with the sourceless modules
+            script = jedi.Script(st['src'], environment=env, project=slots['__project__'])
+            return {'ok': True, 'answer': canon(st['method'], getattr(script, st['method'])())}
         qi, script, stem = slots[st['slot']]
         if do == 'run':
             ans = canon(SCEN[qi][0], getattr(script, SCEN[qi][0])())
@@ -505,11 +613,16 @@ def run_case(case):
     res = {'id': case['id'], 'queries': [], 'env_error': None}
     env = None
     slots = {}
+    pdir = None
     try:
         try:
             env = Environment(WRAPPER, env_vars=env_vars)
         except BaseException as e:
             res['env_error'] = [type(e).__name__, str(e)[:300]]
+        if env is not None and case.get('mods'):
+            import jedi
+            pdir = make_project(tag, case['mods'])
+            slots['__project__'] = jedi.Project(pdir, load_unsafe_extensions=True)
         if env is not None:
             for qn, st in enumerate(steps_of(case)):
                 n_ops = len(rec.ops)
@@ -591,6 +704,9 @@ def run_case(case):
                 os.unlink(p)
             except OSError:
                 pass
+        if pdir is not None:
+            import shutil
+            shutil.rmtree(pdir, ignore_errors=True)
     return res
 
 
@@ -615,8 +731,8 @@ def model_request(res):
             item = {'h': pids.index(e['pid']), 'k': e['k'], 'phase': e['phase'], 'cls': ''}
             if e['phase'] == 'trunc':
                 item['cls'] = trunc_class(e['prefix'])
-            if e['phase'] == 'raises':
-                item['cls'] = 'RuntimeError'
+            if e['phase'] in ('raises', 'raises_fatal'):
+                item['cls'] = e.get('exc') or ('RuntimeError' if e['phase'] == 'raises' else 'KeyboardInterrupt')
             plan.append(item)
         elif e.get('ev') == 'req' and e.get('exc') and e.get('fn') and e['pid'] in pids:
             # the requested function raised inside the surviving helper (jedi's ordinary control flow);
@@ -706,6 +822,14 @@ def oracle_case(ctx, case, res, expected):
             'kills': list(case.get('kills', []))}
     if case.get('prog'):
         base['prog'] = [dict(st, src=list(SCEN[st['q']])) if 'q' in st else dict(st) for st in case['prog']]
+    if case.get('mods'):
+        base['mods'] = case['mods']
+        base['on_import'] = case.get('on_import')
+        how = ('a directory with the sourceless modules `mods` (name.pyc compiled from the given source, no .py); '
+               'project = jedi.Project(dir, load_unsafe_extensions=True); every step of `prog` is '
+               'jedi.Script(src, project=project, environment=env).<method>() on one Environment (the '
+               'environment executable is harness/helper_wrapper/python, which only logs here: "starts" is empty); '
+               'module `bad` does `on_import` while the helper imports it; ./check C14 --replay <this file>')
     steps = steps_of(case)
     if res['env_error'] is not None:
         # the very first helper start failing is an unusable environment, not a crash of a working helper
@@ -726,7 +850,8 @@ def oracle_case(ctx, case, res, expected):
         cul, phase = culprit_of(q, seen_faults)
         seen_faults += q['faults']
         case_d = dict(base, query_index=qn, culprit=cul, phase=phase)
-        qi = q.get('q', steps[qn].get('q'))
+        qi = q.get('q', steps[qn].get('q', steps[qn].get('ref')))
+        api = steps[qn].get('method') or (SCEN[qi][0] if isinstance(qi, int) else '?')
         if q.get('stale_states'):
             ctx.fail('oracle', 'the helper still holds the inference state of a Script that was discarded before '
                                'this step, although it has served a further stateful request (the deletion '
@@ -745,22 +870,31 @@ def oracle_case(ctx, case, res, expected):
                                'dead_helpers': q['dead_pipes'],
                                'outcome': 'ok' if q['ok'] else q['cls']}, how=how)
         if q['ok']:
-            if q['answer'] is not None and q['answer'] != expected[qi]:
+            if q['answer'] is not None and expected.get(qi) is not None and q['answer'] != expected[qi]:
                 ctx.fail('oracle', 'a Script after a helper crash answers differently from the undisturbed run',
                          dict(case_d, symptom='answer'), expected=expected[qi], observed=q['answer'], how=how)
             continue
         failures.append(q['cls'])
         msgs.append(q['msg'][:200])
-        injected = q['cls'] == 'RuntimeError' and 'verif: injected' in q['msg']
+        # "the helper raises" an Exception (CPython's hierarchy, not jedi's except clause, says which classes
+        # these are): the helper reports it and lives, jedi re-raises the remote exception by design.  Any other
+        # BaseException ends the helper: that is a death, and only InternalError may come out of the query.
+        injected = 'verif: injected' in q['msg'] and any(
+            f['phase'] == 'raises' and (f.get('exc') or 'RuntimeError') == q['cls']
+            and is_exception_subclass(q['cls']) for f in q['faults'])
         if q['cls'] == 'HANG':
             ctx.fail('oracle', 'query hangs after a helper fault', dict(case_d, symptom='hang'),
                      observed=q, how=how)
         elif injected:
             pass     # the helper raised, it did not die: the remote exception is what jedi documents
         elif q['cls'] != 'InternalError':
-            ctx.fail('oracle', 'a helper death surfaces as something else than InternalError',
+            fatal_exc = [f.get('exc') or 'KeyboardInterrupt' for f in q['faults'] if f['phase'] == 'raises_fatal']
+            ctx.fail('oracle', 'a helper death surfaces as something else than InternalError'
+                     + (': the %s raised inside the helper while it served a request comes out of Script.%s() '
+                        'in the user\'s process' % (q['cls'], api) if q['cls'] in fatal_exc else ''),
                      dict(case_d, symptom='class'),
-                     expected='InternalError', observed={'cls': q['cls'], 'msg': q['msg']}, how=how)
+                     expected='InternalError', observed={'cls': q['cls'], 'msg': q['msg'],
+                                                         'raised_in_helper': fatal_exc}, how=how)
         if q['cls'] == 'InternalError' and q['zombies_after']:
             ctx.fail('oracle', 'dead helper not reaped after the failing query (zombie)',
                      dict(case_d, symptom='zombie'),
@@ -778,17 +912,21 @@ def oracle_case(ctx, case, res, expected):
     if res['fds'][1] > res['fds'][0]:
         ctx.fail('oracle', 'file descriptors leaked after the environment was dropped', base,
                  observed={'before': res['fds'][0], 'after': res['fds'][1]}, how=how)
-    bucket = '+'.join(sorted(f['phase'] + ('@0' if f['k'] == 0 else '')
+    bucket = '+'.join(sorted(f['phase'] + (':' + f['exc'] if f.get('exc') else '') + ('@0' if f['k'] == 0 else '')
                              for q in res['queries'] for f in q['faults'])) or 'no-fault-hit'
     if case.get('kills'):
         bucket += '/sigkill=%d' % sum(1 for q in res['queries'] for f in q['faults'] if f.get('by'))
     n_nat = sum(1 for q in res['queries'] if q.get('raised_in_helper'))
-    if case.get('prog'):
+    if case.get('mods'):
+        bucket = 'import of a sourceless module: %s/hit=%d' % (case.get('on_import'), deaths + raises)
+    elif case.get('prog'):
         bucket += '/prog:raised-in-helper=%d' % n_nat
-    ctx.count('oracle', json.dumps([case['queries'], case['starts'], case.get('kills', []), case.get('prog')]),
+    ctx.count('oracle', json.dumps([case['queries'], case['starts'], case.get('kills', []), case.get('prog'),
+                                    case.get('on_import')]),
               nontrivial=deaths + raises + n_nat > 0,
               bucket=bucket, sample={'queries': base['queries'], 'starts': case['starts'],
                                      'kills': base['kills'], 'prog': base.get('prog'),
+                                     'on_import': case.get('on_import'),
                                      'outcomes': [q['answer'] if q['ok'] else q['cls'] for q in res['queries']]})
 
 
@@ -808,14 +946,14 @@ def gen_cases(ctx, nreqs):
             ph = PHASES[i % len(PHASES)]
             if ph == 'before_send' and k0 == 0:
                 k0 = 1
-            starts = [{'k': k0, 'phase': ph, 'n': rng.choice([1, 2, 3, 4, 11, 12, 20, 40])}]
+            starts = [with_exc(rng, {'k': k0, 'phase': ph, 'n': rng.choice([1, 2, 3, 4, 11, 12, 20, 40])})]
             r = rng.random()
             if r < 0.45:
                 m = 1 if r < 0.25 else 2
                 for _ in range(m):
                     ph2 = rng.choice(PHASES)
                     k2 = rng.randint(1 if ph2 == 'before_send' else 0, 6)
-                    starts.append({'k': k2, 'phase': ph2, 'n': rng.choice([1, 2, 4, 11, 30])})
+                    starts.append(with_exc(rng, {'k': k2, 'phase': ph2, 'n': rng.choice([1, 2, 4, 11, 30])}))
             cases.append({'id': 'g%d' % i, 'queries': qs, 'starts': starts})
     else:
         i = 0
@@ -826,13 +964,50 @@ def gen_cases(ctx, nreqs):
                     if ph == 'before_send' and k == 0:
                         continue
                     ns = [1, 2, 4, 11, 12, 40] if ph == 'trunc' else [4]
-                    starts = [{'k': k, 'phase': ph, 'n': rng.choice(ns)}]
+                    starts = [with_exc(rng, {'k': k, 'phase': ph, 'n': rng.choice(ns)})]
                     for _ in range(rng.choice([0, 0, 1, 2])):
                         ph2 = rng.choice(PHASES)
-                        starts.append({'k': rng.randint(1 if ph2 == 'before_send' else 0, 6), 'phase': ph2,
-                                       'n': rng.choice([1, 2, 4, 11, 30])})
+                        starts.append(with_exc(rng, {'k': rng.randint(1 if ph2 == 'before_send' else 0, 6),
+                                                     'phase': ph2, 'n': rng.choice([1, 2, 4, 11, 30])}))
                     cases.append({'id': 't%d' % i, 'queries': [t, f1, f2, t], 'starts': starts})
                     i += 1
+    # "the helper raises", every class of exception: one case per BaseException class that is no Exception
+    # (random request index within the first two queries, random queries, sometimes up to 3 consecutive
+    # ones: the replacement helpers raise as well) and - thorough: every request index of every scenario
+    fatal = list(EXC_FATAL)
+    soft = list(EXC_SOFT)
+    rng.shuffle(soft)
+    def exc_plan(k, name, arg=None):
+        pl = {'k': k, 'phase': 'raises' if is_exception_subclass(name) else 'raises_fatal', 'exc': name}
+        if arg is not None:
+            pl['arg'] = arg
+        return pl
+    if ctx.quick:
+        for i, (name, arg) in enumerate(fatal):
+            qs = [rng.choice(allq) for _ in range(3)]
+            total = 2 + sum(nreqs[q] for q in qs[:2])
+            starts = [exc_plan(rng.randint(1, max(1, total - 1)), name, arg)]
+            for _ in range(rng.choice([0, 0, 1, 2])):
+                n2, a2 = rng.choice(fatal)
+                starts.append(exc_plan(rng.randint(0, 5), n2, a2))
+            cases.append({'id': 'x%d' % i, 'queries': qs, 'starts': starts})
+        for i, name in enumerate(soft[:4]):
+            qs = [rng.choice(allq) for _ in range(3)]
+            total = 2 + sum(nreqs[q] for q in qs[:2])
+            cases.append({'id': 'xs%d' % i, 'queries': qs,
+                          'starts': [exc_plan(rng.randint(1, max(1, total - 1)), name)]})
+    else:
+        i = 0
+        for t in allq:
+            for k in range(0, 2 + nreqs[t] + 1):
+                name, arg = fatal[i % len(fatal)]
+                n2, a2 = fatal[(i // len(fatal) + 3 * i + 1) % len(fatal)]
+                cases.append({'id': 'x%d' % i, 'queries': [t, rng.choice(allq), t],
+                              'starts': [exc_plan(k, name, arg)] + ([exc_plan(rng.randint(0, 4), n2, a2)]
+                                                                    if i % 3 == 0 else [])})
+                cases.append({'id': 'xs%d' % i, 'queries': [t, rng.choice(allq), t],
+                              'starts': [exc_plan(k, soft[i % len(soft)])]})
+                i += 1
     # fixed regression cases (DESIGN section 6, F13, and the handshake case)
     cases.append({'id': 'three', 'queries': [0, 1, 2, 3, 4],
                   'starts': [{'k': 4, 'phase': 'after_send'}, {'k': 2, 'phase': 'before_send'},
@@ -889,11 +1064,35 @@ def gen_cases(ctx, nreqs):
         steps += [P('query', q=rng.choice(allq)), P('query', q=rng.choice(allq))]
         starts = []
         if rng.random() < 0.5:
-            starts = [{'k': rng.randint(2, 12), 'phase': 'raises'}]
+            starts = [with_exc(rng, {'k': rng.randint(2, 12), 'phase': 'raises'})]
         progs.append(('p%d' % i, starts, steps))
     for pid_, starts, steps in progs:
         cases.append({'id': pid_, 'queries': [st['q'] for st in steps if 'q' in st], 'starts': starts,
                       'prog': steps})
+    # through the public API: sourceless modules of a project, one of which does something fatal (or not)
+    # while the helper imports it; 1..3 consecutive queries that import it, fine queries around them
+    def MQ(pair, ref=None):
+        st = {'do': 'mq', 'method': pair[0], 'src': pair[1]}
+        if ref is not None:
+            st['ref'] = ref
+        return st
+    def fine_q():
+        j = rng.randrange(len(MQ_FINE))
+        return MQ(MQ_FINE[j], 'm%d' % j)
+    actions = [a for a in MOD_ACTIONS if a != 'benign']
+    fatal_actions = [a for a in actions if MOD_ACTIONS[a][0] == 'raises_fatal']
+    other = [a for a in actions if a not in fatal_actions]
+    rng.shuffle(other)
+    todo = (fatal_actions + other[:ctx.size(3, len(other))]) * ctx.size(1, 6)
+    for i, act in enumerate(todo):
+        steps = [fine_q() for _ in range(rng.choice([0, 1, 1]))]
+        for _ in range(rng.choice([1, 1, 2, 3])):
+            steps.append(MQ(rng.choice(MQ_BAD)))
+            if rng.random() < 0.3:
+                steps.append(fine_q())
+        steps += [fine_q() for _ in range(rng.choice([1, 2]))]
+        cases.append({'id': 'n%d' % i, 'queries': [], 'starts': [], 'prog': steps, 'on_import': act,
+                      'mods': {'fine': MOD_FINE, 'bad': MOD_HEAD + MOD_ACTIONS[act][2]}})
     for i in range(ctx.size(3, 40)):
         nq = rng.randint(3, 6)
         qs = [rng.choice(allq) for _ in range(nq)]
@@ -901,8 +1100,8 @@ def gen_cases(ctx, nreqs):
         starts = []
         for _ in range(rng.choice([0, 0, 1, 2])):
             ph2 = rng.choice(PHASES)
-            starts.append({'k': rng.randint(1 if ph2 == 'before_send' else 0, 8), 'phase': ph2,
-                           'n': rng.choice([1, 2, 4, 11, 30])})
+            starts.append(with_exc(rng, {'k': rng.randint(1 if ph2 == 'before_send' else 0, 8), 'phase': ph2,
+                                         'n': rng.choice([1, 2, 4, 11, 30])}))
         cases.append({'id': 'k%d' % i, 'queries': qs, 'starts': starts, 'kills': kills})
     return cases
 
@@ -925,9 +1124,15 @@ def run_cases(cases, jobs=12):
 def baseline(ctx):
     """undisturbed answers and request counts of every scenario (through the wrapper, no plan)"""
     case = {'id': 'base', 'queries': list(range(len(SCEN))) + list(range(len(SCEN))), 'starts': []}
-    res = run_cases([case], 1)[0]
+    mcase = {'id': 'base-mods', 'queries': [], 'starts': [], 'on_import': 'benign',
+             'mods': {'fine': MOD_FINE, 'bad': MOD_HEAD},
+             'prog': [{'do': 'mq', 'method': m, 'src': src, 'ref': 'm%d' % j}
+                      for _ in range(2) for j, (m, src) in enumerate(MQ_FINE)]}
+    res, mres = run_cases([case, mcase], 2)
     if 'infra' in res:
         raise common.InfraError('baseline run failed: ' + res['infra'])
+    if 'infra' in mres:
+        raise common.InfraError('baseline run (sourceless modules) failed: ' + mres['infra'])
     if res['env_error']:
         raise common.InfraError('cannot start the wrapped helper: %r' % (res['env_error'],))
     n = len(SCEN)
@@ -943,6 +1148,13 @@ def baseline(ctx):
             continue
         expected[qi] = b['answer']
         nreqs[qi] = sum(1 for o in res['ops'][b['ops'][0]:b['ops'][1]] if o['op'] == 'call') + 2
+    # the queries on module `fine` of the project with sourceless modules
+    m = len(MQ_FINE)
+    for j in range(m):
+        qs = mres['queries']
+        ok = not mres['env_error'] and len(qs) == 2 * m and qs[j]['ok'] and qs[m + j]['ok'] \
+            and qs[j]['answer'] == qs[m + j]['answer']
+        expected['m%d' % j] = qs[j]['answer'] if ok else None
     return expected, nreqs, res
 
 
@@ -1031,6 +1243,11 @@ def run(ctx):
     load_own_findings(ctx, 'C14')
     expected, nreqs, base = baseline(ctx)
     usable = [qi for qi in range(len(SCEN)) if expected.get(qi) is not None]
+    m_usable = [j for j in range(len(MQ_FINE)) if expected.get('m%d' % j) is not None]
+    ctx.notes.append('sourceless-module queries with a usable undisturbed answer: %r' % [MQ_FINE[j] for j in m_usable])
+    if len(m_usable) < 2:
+        raise common.InfraError('fewer than 2 usable queries on the sourceless module: %r'
+                                % {k: v for k, v in expected.items() if isinstance(k, str)})
     if len(usable) < 6:
         raise common.InfraError('fewer than 6 usable scenarios: %r' % (expected,))
     for qi in range(len(SCEN)):
@@ -1059,11 +1276,14 @@ def run(ctx):
         results = run_cases(cases, jobs=ctx.size(12, 16))
         # "no query hangs" is judged on an otherwise idle harness: a case that ran into the alarm while
         # 12 workers (and whatever else the machine is doing) compete for the CPUs is run again, alone
-        for i, (c, r) in enumerate(zip(cases, results)):
-            if 'infra' not in r and any(q.get('cls') == 'HANG' for q in r['queries']):
-                ctx.notes.append('case %s hit the %d s alarm in the parallel run; re-run alone with %d s'
-                                 % (c['id'], HANG_AFTER, RETRY_HANG_AFTER))
-                results[i] = run_cases([dict(c, timeout=RETRY_HANG_AFTER)], 1)[0]
+        hung = [i for i, r in enumerate(results)
+                if 'infra' not in r and any(q.get('cls') == 'HANG' for q in r['queries'])]
+        if hung:
+            ctx.notes.append('cases %s hit the %d s alarm in the parallel run; re-run (3 at a time) with %d s'
+                             % ([cases[i]['id'] for i in hung], HANG_AFTER, RETRY_HANG_AFTER))
+            again = run_cases([dict(cases[i], timeout=RETRY_HANG_AFTER) for i in hung], 3)
+            for i, r in zip(hung, again):
+                results[i] = r
         churn = churn_async.get(timeout=600)
     ctx.notes.append('C14: %d cases on the real code in %.1f s' % (len(cases), time.time() - t0))
     reqs = []
@@ -1088,8 +1308,36 @@ def run(ctx):
                      how='create/drop Scripts on one Environment, gc.collect(), look at Listener._inference_states')
     ctx.notes.append('churn: %d Scripts, max helper-side states %d' % (len(churn['steps']), worst))
     reqs.append({'op': 'trace', 'plan': [], 'ops': [{'op': o['op'], 's': o['s']} for o in churn['ops']] + [{'op': 'dropenv'}]})
+    # CPython's class hierarchy as the model has it (mro) vs the real one, and what the except clause of
+    # Listener.listen read from the source does with each class, vs what the real helper did in this run
+    names = sorted(set(EXC_SOFT) | {n for n, _ in EXC_FATAL} | {'InternalError', 'UnpicklingError'})
+    n_trace = len(reqs)
+    for nm in names:
+        reqs.append({'op': 'caught', 'cls': nm, 'clause': ['Exception']})
+        reqs.append({'op': 'listen', 'cls': nm})
+    survived = {}      # class raised inside the helper -> did the helper survive it (observed)
+    for r in results:
+        for q in r.get('queries', []):
+            for f in q['faults']:
+                if f['phase'] in ('raises', 'raises_fatal') and f.get('exc'):
+                    later = any(e.get('pid') == f['pid'] and e.get('ev') == 'req' and e.get('k', -1) > f['k']
+                                for e in r['events'])
+                    survived.setdefault(f['exc'], set()).add(bool(later) or (not q['ok'] and q['cls'] == f['exc']))
     if ctx.model_ok:
         answers = common.run_driver_parallel('C14', reqs)
+        for j, nm in enumerate(names):
+            a_caught, a_listen = answers[n_trace + 2 * j], answers[n_trace + 2 * j + 1]
+            real = is_exception_subclass(nm)
+            if real is None:
+                real = True          # jedi's / pickle's own Exception subclasses
+            ctx.count('corr', ('hierarchy', nm), nontrivial=True, bucket='class hierarchy / except clause of listen')
+            if a_caught != real:
+                ctx.tie_broken('correspondence:hierarchy', 'model: `except Exception` catches %s = %r, CPython: %r'
+                               % (nm, a_caught, real))
+            obs = survived.get(nm)
+            if obs and obs != {a_listen == 'reported'}:
+                ctx.tie_broken('correspondence:listen', 'class %s raised inside the helper: model says %s, the real '
+                               'helper survived = %r' % (nm, a_listen, sorted(obs)))
         for c, r, ans in zip(cases, results, answers[:len(cases)]):
             if isinstance(ans, dict):
                 raise common.InfraError('driver error: %r' % ans)
@@ -1145,16 +1393,20 @@ def replay(ctx, payload):
         case['prog'] = []
         for st in inp['prog']:
             st = dict(st)
-            src = st.pop('src', None)
+            src = st.pop('src', None) if st.get('do') != 'mq' else None
             if src is not None:
                 st['q'] = SCEN.index(tuple(src)) if tuple(src) in SCEN else 0
             case['prog'].append(st)
+    if inp.get('mods'):
+        case['mods'] = inp['mods']
+        case['on_import'] = inp.get('on_import')
     res = run_cases([case], 1)[0]
     if 'infra' in res:
         print(res['infra'])
         return 2
     for q, st in zip(res.get('queries', []), steps_of(case)):
-        what = (st['do'], st.get('slot'), SCEN[st['q']] if 'q' in st else None) if case.get('prog') else SCEN[st['q']]
+        what = (st['do'], st.get('slot'), SCEN[st['q']] if 'q' in st else (st.get('method'), st.get('src'))) \
+            if case.get('prog') else SCEN[st['q']]
         print(what, '->', q['answer'] if q['ok'] else 'EXC %s: %s' % (q['cls'], q['msg'][:160]),
               'faults:', [(f['phase'], f['k'], f.get('by', 'wrapper')) for f in q['faults']],
               'pipes of dead helpers still open:', q.get('dead_pipes'),
@@ -1162,4 +1414,14 @@ def replay(ctx, payload):
               '[helper states, alive Scripts, request index]:', q.get('states_seen'))
     print('zombies at end:', res.get('zombies_end'), 'fds before/after:', res.get('fds'))
     print('expected:', payload.get('expected'), 'observed at record time:', short(payload.get('observed')))
-    return 0
+    # the verdict of the oracle on this run (undisturbed reference answers are computed first)
+    load_own_findings(ctx, 'C14')
+    expected, _nreqs, _base = baseline(ctx)
+    oracle_case(ctx, case, res, expected)
+    bad = [v for v in ctx.violations if v is not None]
+    for v in bad:
+        print('REPRODUCED:', v['what'], '| query', v['input'].get('query_index'), '| observed:',
+              short(v['observed'], 400))
+    if not bad:
+        print('not reproduced: the property holds on this input (known findings: %s)' % sorted(ctx.known_hits))
+    return 1 if bad else 0
